@@ -194,50 +194,36 @@ theorem extendEdge_lookup (st : Store) (e : Edge) (props : List (Nat × PV)) (k 
 theorem nodeProps_lookup (x : Engine) (n k : Nat) : (x.nodeProps n).lookup k = x.nodeProp n k := by
   unfold Engine.nodeProps Engine.nodeProp
   by_cases h0 : (x.propsRoot != 0) = true
-  · have h0' : (x.propsRoot == 0) = false := by
-      cases h : x.propsRoot == 0 with
-      | true => simp [bne, h] at h0
-      | false => rfl
-    simp only [h0, if_true, h0', Bool.false_eq_true, if_false]
+  · simp only [h0, if_true]
     rw [extendNode_lookup, mergeNProps_eq_npropRuns]
     cases npropRuns n k x.runs <;> rfl
-  · have h0' : (x.propsRoot == 0) = true := by
-      cases h : x.propsRoot == 0 with
-      | true => rfl
-      | false => simp [bne, h] at h0
-    simp only [h0, Bool.false_eq_true, if_false, h0', if_true]
-    rw [mergeNProps_eq_npropRuns]
+  · have h00 : x.propsRoot = 0 := by simpa using h0
+    simp only [h0, Bool.false_eq_true, if_false]
+    rw [mergeNProps_eq_npropRuns, visibleStore_noRoot h00]
     cases npropRuns n k x.runs <;> rfl
 
 /-- `edge_properties`, key by key: exactly what `edge_property` answers -/
 theorem edgeProps_lookup (x : Engine) (e : Edge) (k : Nat) : (x.edgeProps e).lookup k = x.edgeProp e k := by
   unfold Engine.edgeProps Engine.edgeProp
   by_cases h0 : (x.propsRoot != 0) = true
-  · have h0' : (x.propsRoot == 0) = false := by
-      cases h : x.propsRoot == 0 with
-      | true => simp [bne, h] at h0
-      | false => rfl
-    simp only [h0, if_true, h0', Bool.false_eq_true, if_false]
+  · simp only [h0, if_true]
     rw [extendEdge_lookup, mergeEProps_eq_epropRuns]
     cases epropRuns e k x.runs <;> rfl
-  · have h0' : (x.propsRoot == 0) = true := by
-      cases h : x.propsRoot == 0 with
-      | true => rfl
-      | false => simp [bne, h] at h0
-    simp only [h0, Bool.false_eq_true, if_false, h0', if_true]
-    rw [mergeEProps_eq_epropRuns]
+  · have h00 : x.propsRoot = 0 := by simpa using h0
+    simp only [h0, Bool.false_eq_true, if_false]
+    rw [mergeEProps_eq_epropRuns, visibleStore_noRoot h00]
     cases epropRuns e k x.runs <;> rfl
 
 /-- `node_properties` / `edge_properties` (whole maps) are unchanged, key by key, by a compaction of runs
     without property removals -/
-theorem compact_nodeProps (c : Cfg) (s : Engine) (hdel : ∀ r ∈ s.runs, r.nDel = [])
-    (hroot : s.propsRoot = 0 → s.store = []) (n k : Nat) :
+theorem compact_nodeProps (c : Cfg) (hflag : c.rootAfterInserts = true) (s : Engine)
+    (hdel : ∀ r ∈ s.runs, r.nDel = []) (hroot : RootOK s) (n k : Nat) :
     ((s.compact c).nodeProps n).lookup k = (s.nodeProps n).lookup k := by
-  rw [nodeProps_lookup, nodeProps_lookup, compact_nodeProp c s hdel hroot]
+  rw [nodeProps_lookup, nodeProps_lookup, compact_nodeProp c hflag s hdel hroot]
 
-theorem compact_edgeProps (c : Cfg) (s : Engine) (hdel : ∀ r ∈ s.runs, r.eDel = [])
-    (hroot : s.propsRoot = 0 → s.store = []) (e : Edge) (k : Nat) :
+theorem compact_edgeProps (c : Cfg) (hflag : c.rootAfterInserts = true) (s : Engine)
+    (hdel : ∀ r ∈ s.runs, r.eDel = []) (hroot : RootOK s) (e : Edge) (k : Nat) :
     ((s.compact c).edgeProps e).lookup k = (s.edgeProps e).lookup k := by
-  rw [edgeProps_lookup, edgeProps_lookup, compact_edgeProp c s hdel hroot]
+  rw [edgeProps_lookup, edgeProps_lookup, compact_edgeProp c hflag s hdel hroot]
 
 end Nervus.Storage
